@@ -200,6 +200,10 @@ def rule_w4(chk: Check, ir):
                 rest = alt_items[idx + 1:]
                 c = committed or (bool(rest) and isinstance(rest[0].item, Cut) and False)
                 out.append((it.value, rest, committed))
+            elif isinstance(it, Group) and all(len(g.items) == 1 and isinstance(g.items[0].item, Lit) for g in it.alts):
+                # a choice of literal openers: `('(' | '!(' | '$(')`
+                for g in it.alts:
+                    out.append((g.items[0].item.value, alt_items[idx + 1:], committed))
             elif isinstance(it, Ref) and it.name in rules and not memoised(rules[it.name]) and depth < 3:
                 for b in rules[it.name].alts:
                     # a cut inside the referenced rule commits that rule only, not the caller
@@ -210,17 +214,23 @@ def rule_w4(chk: Check, ir):
 
     # repetitions P: Y+ with both unmemoised
     pairs = set()
+    bodies: dict[str, list] = {}
     for P in rules.values():
         if memoised(P):
             continue
         for a in P.alts:
-            for ni in a.items:
-                it = ni.item
+            for it in walk_alt_items(a):
                 if isinstance(it, Rep) and isinstance(it.item, Ref) and it.item.name in rules and not memoised(rules[it.item.name]):
                     pairs.add((P.name, it.item.name))
+                    bodies[it.item.name] = rules[it.item.name].alts
+                elif isinstance(it, Rep) and isinstance(it.item, Group) and len(it.item.alts) > 1:
+                    # an inline choice as the body of the repetition: `( A | B )*`
+                    yn = f"{P.name}:({it.item})"[:80]
+                    pairs.add((P.name, yn))
+                    bodies[yn] = it.item.alts
     chk.units["unmemoised_repetitions"] = sorted(f"{p}: {y}+" for p, y in pairs)
     for pname, yname in sorted(pairs):
-        Y = rules[yname]
+        Y = type("Y", (), {"alts": bodies[yname]})
         for i, a in enumerate(Y.alts):
             if a.invalid_guard:
                 continue
@@ -244,7 +254,12 @@ def rule_w4(chk: Check, ir):
                 nxt = next((ni.item for ni in rest if not isinstance(ni.item, (Cut, Look))), None)
                 recursive = False
                 for it in ([nxt] if nxt is not None else []):
-                    for sub in ([it] if isinstance(it, Ref) else [x for x in _walk(it) if isinstance(x, Ref)]):
+                    def refs_in(x):
+                        if isinstance(x, Ref):
+                            yield x
+                        for c in x.children():
+                            yield from refs_in(c)
+                    for sub in refs_in(it):
                         if reach_unmemo(sub.name, {pname, yname}):
                             recursive = True
                 if recursive and not y_commits:
